@@ -234,7 +234,7 @@ def generate(unit_dir, mustfail=False, mutate=None, variant=None, template='unit
             if mustfail and rec.mustfail and (mustfail is True or rname in mustfail):
                 spec['sig'] = add_ensures_false(spec.get('sig') or '')
             if plain:
-                spec = dict(rules=spec['rules'] & {'R3'}, plain=True, rename=spec.get('rename'))
+                spec = dict(rules=spec['rules'] & {'R3'}, plain=True, rename=spec.get('rename'), aliases=spec.get('aliases', {}))
             txt, sh = transform.transform_fn(src, spec)
             rec.n_loops, rec.n_closures = len(sh.loops), len(sh.closures)
             if o.get('pub'):
@@ -271,6 +271,8 @@ def generate(unit_dir, mustfail=False, mutate=None, variant=None, template='unit
         for ty, sts in impls.items():
             extra.append(('impl %s {' % ty) if plain else ('verus! { impl %s {' % ty))
             for st in sts.values():
+                if st['qual'] in g.auto_stubbed:
+                    continue      # already emitted next to a method of the same type
                 stxt = stub_text(st, plain).lstrip()
                 if stxt.startswith('#[verifier::external_body]'):
                     first, rest = stxt.split('\n', 1)
@@ -410,7 +412,10 @@ def unresolved_callees(g, diags):
                     # a method of another (stubbed) type: look for it in the crate of the referencing file
                     q = '%s::%s' % (target, m2.group(1))
                     crate_src = rec.file.split('/src/')[0] + '/src'
-                    for root, _dirs, files in os.walk(os.path.join(REPO, crate_src)):
+                    roots = [os.path.join(REPO, crate_src)] + sorted(
+                        os.path.join(REPO, 'crates', c, 'src') for c in os.listdir(os.path.join(REPO, 'crates'))
+                        if os.path.join('crates', c, 'src') != crate_src)
+                    for root, _dirs, files in (x for r_ in roots for x in os.walk(r_)):
                         for fn_ in sorted(files):
                             if not fn_.endswith('.rs'):
                                 continue
